@@ -8,7 +8,7 @@
     FULL STATEMENT, PROVED in round 2 ([C05_eval_refines_spec], closed under the global context):
 
       forall doc c e,
-        DocInv doc -> SpecShape doc -> NamesOk doc -> ParentsOk doc ->
+        DocInv doc -> SpecShape doc -> NamesOk doc ->
         ns_lookup (c_ns c) None = None -> supported (c_ns c) e ->
         value_abs (fst (query doc e c)) = spec_query doc (c_ns c) (get_position c) (get_size c) e.
 
@@ -23,9 +23,9 @@
     [C05_eval_refines_spec_at] is the same statement at any node of the tree with any context
     position / size (what a predicate sees), including "a value leaves the context unchanged".
 
-    Hypotheses (all decidable; the checkers [doc_inv_b], [spec_shape_b], [names_ok_b],
-    [parents_ok_b] are extracted and evaluated on every generated document by checks/C05.py, which
-    reports how many documents satisfy them):
+    Hypotheses (all decidable; the checkers [doc_inv_b], [spec_shape_b], [names_ok_b] are extracted
+    and evaluated on every generated document by checks/C05.py, which reports how many documents
+    satisfy them):
       [DocInv]     the table is well formed and order keys increase along it (fails for DTD-default
                    attributes and namespace nodes with key 0: D19);
       [SpecShape]  the table is the pre-order walk of the tree of section 5 (the rows read by
@@ -38,9 +38,6 @@
       [NamesOk]    expanded names are those of Namespaces in XML (the statement of C10); a processing
                    instruction reports (target, no prefix, no URI); documents, text, comments report
                    no name;
-      [ParentsOk]  the parent observation is the parent in the tree (fails for documents with a
-                   document type declaration, whose row has the document as dom parent but is not a
-                   node of the data model: the theorem does not speak about those documents);
       no default namespace binding in the context (XPath 1.0 has none for names in expressions).
     [supported ns e] (decidable, syntactic: [supported_b] in Proofs/XPathRefineSupp.v) excludes
       - the namespace axis (namespace nodes have no usable order key and no owner: D19, refuted below);
@@ -57,7 +54,10 @@
       rung 0  the model's canonical form of a node list (de-duplicate and sort by ORDER KEY) is the
               specification's node-set (by TREE POSITION); every node-set value is in document order;
       rung 1  child, attribute, self, descendant(-or-self), parent, ancestor(-or-self) axes,
-              string-values, node tests, predicate-free location paths;
+              string-values, node tests, predicate-free location paths (with the hypothesis
+              [ParentsOk], which the full theorem no longer needs: for the nodes of the tree the
+              parent of the specification is derived from [SpecShape], so documents with a document
+              type declaration are covered);
       rung 2  ALL axes except [namespace] as LISTS ([C05_rung2_axes_partial]), the key sort of a step
               ([C05_rung2_sort_partial]), the string-value of every node of the tree.
     What is still only TESTED (checks/C05.py evaluates implementation, model and specification on
@@ -76,7 +76,7 @@ From XmlRs Require Import Spec.XPath10.
 From XmlRs Require Import Proofs.XPathNav Proofs.XPathSort Proofs.XPathAstPred Proofs.XPathCanon Proofs.XPathRefine
   Proofs.XPathRefinePaths Proofs.XPathRefineTree Proofs.XPathRefineAxes Proofs.XPathRefineVal
   Proofs.XPathRefineSupp Proofs.XPathRefineEval Proofs.XPathUnion Proofs.XPathDocCheck
-  Proofs.XPathExamples Proofs.XPathWitness.
+  Proofs.XPathExamples Proofs.XPathRefineExamples Proofs.XPathWitness.
 Import ListNotations.
 
 (** what the model's value denotes in the specification *)
@@ -162,13 +162,13 @@ Proof. exact path_query_agrees. Qed.
     ([C05_rung2_sort_partial]), which is what a step does before it numbers the nodes for its
     predicates. *)
 Theorem C05_rung2_axes_partial :
-  forall (doc : xdoc), DocInv doc -> SpecShape doc -> ParentsOk doc ->
+  forall (doc : xdoc), DocInv doc -> SpecShape doc ->
   forall (a : axis_spec) (i : node), T doc i -> not_ns_axis a = true ->
   exists l l' : list node,
     axis_nodes doc a i = Ok l /\ NoDup l /\ Forall (T doc) l /\
     s_axis doc (axis_of a) (Row i) = map Row l' /\ StronglySorted N.lt l' /\
     (forall x, In x l' <-> In x l).
-Proof. intros doc Hinv Hs Hp a i. exact (axis_agrees doc Hinv Hs Hp a i). Qed.
+Proof. intros doc Hinv Hs a i. exact (axis_agrees doc Hinv Hs a i). Qed.
 
 Theorem C05_rung2_sort_partial :
   forall (doc : xdoc), DocInv doc -> SpecShape doc ->
@@ -193,25 +193,25 @@ Proof. intros doc i Hinv Hs. exact (sv_agrees doc Hinv Hs i). Qed.
     the shape of an expression that can be a negative-zero number (D34b of C09). *)
 Theorem C05_eval_refines_spec :
   forall (doc : xdoc) (c : ctx) (e : expr),
-    DocInv doc -> SpecShape doc -> NamesOk doc -> ParentsOk doc ->
+    DocInv doc -> SpecShape doc -> NamesOk doc ->
     ns_lookup (c_ns c) None = None -> supported (c_ns c) e ->
     value_abs (fst (query doc e c)) = spec_query doc (c_ns c) (get_position c) (get_size c) e.
 Proof.
-  intros doc c e Hinv Hs Hn Hp Hd Hsup.
-  exact (eval_refines_spec_lemma doc Hinv Hs Hn Hp (c_ns c) Hd c e eq_refl Hsup).
+  intros doc c e Hinv Hs Hn Hd Hsup.
+  exact (eval_refines_spec_lemma doc Hinv Hs Hn (c_ns c) Hd c e eq_refl Hsup).
 Qed.
 
 (** every syntactic category, not only whole queries: the statement for an expression evaluated at
     any node of the tree with any position / size on the context stacks (what a predicate sees),
     together with "a value leaves the context as it was" *)
 Theorem C05_eval_refines_spec_at :
-  forall (doc : xdoc), DocInv doc -> SpecShape doc -> NamesOk doc -> ParentsOk doc ->
+  forall (doc : xdoc), DocInv doc -> SpecShape doc -> NamesOk doc ->
   forall (c : ctx) (e : expr) (n : node),
     ns_lookup (c_ns c) None = None -> supported (c_ns c) e -> T doc n ->
     rrel (vrel doc) c (eval_expr doc e n c) (s_or doc (c_ns c) e (Row n) (get_position c) (get_size c)).
 Proof.
-  intros doc Hinv Hs Hn Hp c e n Hd Hsup Tn.
-  destruct (refine_all doc Hinv Hs Hn Hp (c_ns c) Hd) as [Hor _]. exact (Hor e Hsup n c Tn eq_refl).
+  intros doc Hinv Hs Hn c e n Hd Hsup Tn.
+  destruct (refine_all doc Hinv Hs Hn (c_ns c) Hd) as [Hor _]. exact (Hor e Hsup n c Tn eq_refl).
 Qed.
 
 Theorem C05_supported_decidable : forall ns e, supported ns e <-> supported_b ns e = true.
@@ -223,8 +223,8 @@ Proof. intros ns e. reflexivity. Qed.
     //star[position() = last()]; on <r><a/><?p x?><?q y?></r>
     count(//processing-instruction()), substring("ab", 0), //a/following-sibling::node() *)
 Example C05_example_full_hypotheses :
-  (DocInv ex_doc /\ SpecShape ex_doc /\ NamesOk ex_doc /\ ParentsOk ex_doc) /\
-  (DocInv pi_doc /\ SpecShape pi_doc /\ NamesOk pi_doc /\ ParentsOk pi_doc) /\
+  (DocInv ex_doc /\ SpecShape ex_doc /\ NamesOk ex_doc) /\
+  (DocInv pi_doc /\ SpecShape pi_doc /\ NamesOk pi_doc) /\
   ns_lookup (c_ns ctx_default) None = None /\
   supported (c_ns ctx_default) ex_doc_e0 /\ supported (c_ns ctx_default) ex_doc_e1 /\
   supported (c_ns ctx_default) ex_doc_e2 /\ supported (c_ns ctx_default) ex_doc_e4 /\
@@ -233,11 +233,9 @@ Example C05_example_full_hypotheses :
 Proof.
   split; [|split].
   - split; [apply doc_inv_b_sound; vm_compute; reflexivity|].
-    split; [apply spec_shape_b_sound; vm_compute; reflexivity|].
-    split; [apply names_ok_b_sound; vm_compute; reflexivity|apply parents_ok_b_sound; vm_compute; reflexivity].
+    split; [apply spec_shape_b_sound; vm_compute; reflexivity|apply names_ok_b_sound; vm_compute; reflexivity].
   - split; [apply doc_inv_b_sound; vm_compute; reflexivity|].
-    split; [apply spec_shape_b_sound; vm_compute; reflexivity|].
-    split; [apply names_ok_b_sound; vm_compute; reflexivity|apply parents_ok_b_sound; vm_compute; reflexivity].
+    split; [apply spec_shape_b_sound; vm_compute; reflexivity|apply names_ok_b_sound; vm_compute; reflexivity].
   - repeat split; vm_compute; reflexivity.
 Qed.
 
@@ -250,11 +248,45 @@ Example C05_example_full_values :
   value_abs (fst (query ex_doc ex_doc_e6 ctx_default)) = Some (SNodes [Row 1; Row 7; Row 11; Row 13]%N).
 Proof.
   assert (H6 := C05_eval_refines_spec ex_doc ctx_default ex_doc_e6).
-  destruct C05_example_full_hypotheses as [[H1 [H2 [H3 H4]]] [_ [Hd [_ [_ [_ [_ [S6 _]]]]]]]].
-  specialize (H6 H1 H2 H3 H4 Hd S6).
+  destruct C05_example_full_hypotheses as [[H1 [H2 H3]] [_ [Hd [_ [_ [_ [_ [S6 _]]]]]]]].
+  specialize (H6 H1 H2 H3 Hd S6).
   assert (E : spec_query ex_doc [] 0 0 ex_doc_e6 = Some (SNodes [Row 1; Row 7; Row 11; Row 13]%N)) by (vm_compute; reflexivity).
   split; [vm_compute; reflexivity|]. split; [vm_compute; reflexivity|]. split; [vm_compute; reflexivity|].
   split; [exact E|]. split; [vm_compute; reflexivity|]. rewrite H6. exact E.
+Qed.
+
+(** a document WITH a document type declaration (its row is a child of the document node in the
+    dom, not a node of the data model: [ParentsOk] fails, the theorem applies all the same):
+    <!DOCTYPE r [<!ELEMENT r ANY>]><!--c--><r xml:lang="en"><a x="1"/>t<b><a/></b><?p q?></r> with
+    (//a)[2]/preceding::node()[position() < 3],
+    count(//b/preceding-sibling::node()) + string-length(string(/r)) * 2,
+    /r[lang("en")]/b/a/ancestor::star[last()],
+    //node()[. = "t"][not(self::b)] | //@star[name() = "xml:lang"] *)
+Example C05_example_doctype_hypotheses :
+  DocInv dt_doc /\ SpecShape dt_doc /\ NamesOk dt_doc /\ parents_ok_b dt_doc = false /\
+  supported [] dt_doc_e0 /\ supported [] dt_doc_e1 /\ supported [] dt_doc_e2 /\ supported [] dt_doc_e3.
+Proof.
+  split; [apply doc_inv_b_sound; vm_compute; reflexivity|].
+  split; [apply spec_shape_b_sound; vm_compute; reflexivity|].
+  split; [apply names_ok_b_sound; vm_compute; reflexivity|].
+  repeat split; vm_compute; reflexivity.
+Qed.
+
+Example C05_example_doctype_values :
+  value_abs (fst (query dt_doc dt_doc_e0 ctx_default)) = spec_query dt_doc [] 0 0 dt_doc_e0 /\
+  value_abs (fst (query dt_doc dt_doc_e1 ctx_default)) = spec_query dt_doc [] 0 0 dt_doc_e1 /\
+  value_abs (fst (query dt_doc dt_doc_e2 ctx_default)) = spec_query dt_doc [] 0 0 dt_doc_e2 /\
+  value_abs (fst (query dt_doc dt_doc_e3 ctx_default)) = spec_query dt_doc [] 0 0 dt_doc_e3 /\
+  spec_query dt_doc [] 0 0 dt_doc_e0 = Some (SNodes [Row 6; Row 9]%N) /\
+  spec_query dt_doc [] 0 0 dt_doc_e2 = Some (SNodes [Row 3]%N) /\
+  spec_query dt_doc [] 0 0 dt_doc_e3 = Some (SNodes [Row 3; Row 5; Row 9]%N).
+Proof.
+  destruct C05_example_doctype_hypotheses as [H1 [H2 [H3 [_ [S0 [S1 [S2 S3]]]]]]].
+  split; [exact (C05_eval_refines_spec dt_doc ctx_default dt_doc_e0 H1 H2 H3 eq_refl S0)|].
+  split; [exact (C05_eval_refines_spec dt_doc ctx_default dt_doc_e1 H1 H2 H3 eq_refl S1)|].
+  split; [exact (C05_eval_refines_spec dt_doc ctx_default dt_doc_e2 H1 H2 H3 eq_refl S2)|].
+  split; [exact (C05_eval_refines_spec dt_doc ctx_default dt_doc_e3 H1 H2 H3 eq_refl S3)|].
+  repeat split; vm_compute; reflexivity.
 Qed.
 
 (** outside [supported]: a name test with an UNDECLARED prefix.  XPath 1.0 (2.3) makes it an error;
